@@ -86,10 +86,12 @@ let rapid_eval (fn : string) (args : string list) : string =
       law "gen_timestamp_valid" (d timestamp_preds);
       law "gen_duration_valid" (d duration_preds);
       law "gen_no_empty_lists" (d (no_empty_preds vr o ann));
+      if vr.v_list_clear then law "gen_no_empty_nonnil" (d (no_empty_nonnil_preds o));
       law "gen_disallow_nil" (d (disallow_nil_preds o ann));
       law "gen_no_nil_elements" (d no_nil_elem_preds);
       law "gen_field_mapper" (d (mapper_preds o));
-      if o.o_any <> [] then law "gen_any_resolvable" (d (any_preds o sch ann));
+      if o.o_any <> [] then law "gen_any_resolvable" (d (any_preds o sch ann))
+      else if vr.v_any_container && vr.v_list_truncate then law "gen_any_absent" (d (no_any_field_preds ann));
       if vr.v_enum_by_number then law "gen_enum_declared" (d enum_preds);
       if vr.v_fieldmask_stored then law "gen_fieldmask_paths" (d fieldmask_preds);
       "ok"
